@@ -1444,7 +1444,17 @@ func (fr *Frame) loadPtr(st *State, p Val, pos token.Pos) Val {
 		if !ok {
 			unsupp("read of dead cell %s", p.ptr.cell.name)
 		}
-		return navGet(cv, p.ptr.path)
+		out := navGet(cv, p.ptr.path)
+		// an element read out of an array held in a local cell is a value of
+		// its type (array values carry no facts about their elements: the
+		// parameter [4]byte of a function is 4 bytes)
+		for _, pe := range p.ptr.path {
+			if pe.field < 0 && out.sh.kind != KArr {
+				fx.assume(st.guard, typeInvariant(out))
+				break
+			}
+		}
+		return out
 	}
 	fr.nilCheck(st, p, pos, "deref")
 	fr.guardedCheck(st, p, pos, "read")
